@@ -257,6 +257,10 @@ func c03Decode(c *cx) {
 			}
 		}
 		c.r.Check("C03.7", f, "nil-error return [success flag]", "K: the success flag is exactly (element name == \"success\")", rs.Pos(), okFlag, "second result is not start.Name.Local == \"success\"")
+		// the payload was decoded, whatever its length: an undecodable payload
+		// (three bytes of garbage are enough) must not come back as "empty" with
+		// the success flag set
+		c.domAny("C03.7", f, rs, "nil-error return [payload decoded]", []string{"eq(encoding/base64.Encoding.Decode[*](*)#1,nil)", "eq(encoding/base64.Encoding.DecodeString[*](*)#1,nil)"})
 	}
 	c.r.Floor("C03.7", "nil-error returns of decodeSASLChallenge", n, 1)
 }
